@@ -61,6 +61,14 @@ STORE_PROBES = {
 }
 
 
+REFRESH_PROBE = "aged-regular-session-refresh-races-delete"
+REFRESH_PROBES = {
+    REFRESH_PROBE: [st("CreateUser", "u1", "p1"), st("CreateSession", "u1", s="s1"), st("Age", s="s1"),
+                    st("PGetS", s="s1", pr=1, kind="AuthCookie"), st("DeleteSession", s="s1"), st("PSet", s="s1", pr=1, kind="AuthCookie"),
+                    st("PGetU", s="s1", pr=1, kind="AuthCookie"), st("AuthCookie", s="s1"), st("AuthOneTime", s="s1")],
+}
+
+
 def run(ctx):
     quick = ctx.quick()
     ctx.cov["actions"] = {}
@@ -82,8 +90,9 @@ def design(ctx, quick):
         model_check(ctx, SPEC, "MC_AuthSession", "MC_AuthSession.cfg" if quick else "MC_AuthSession_thorough.cfg", timeout=3000)
         # every interleaving of 3 concurrent presenters mixed with sequential presentations / password change / session deletion
         model_check(ctx, SPEC, "MC_AuthSession", "MC_AuthSession_conc.cfg", timeout=3000)
-        if not quick:   # the ideal (session path refuses a disabled owner) satisfies the disabled clause as well
-            model_check(ctx, SPEC, "MC_AuthSession", "MC_AuthSession_ideal.cfg", timeout=3000)
+        # DeleteSession racing a presentation in flight: holds for the ideal refresh (write back only if the document still exists);
+        # the as-coded blind Set is decided on the real code by REFRESH_PROBE
+        model_check(ctx, SPEC, "MC_AuthSession", "MC_AuthSession_race.cfg", timeout=3000)
     except BaseException as ex:      # re-raised by run() in the main thread
         ctx._c12_mc_err.append(ex)
 
@@ -105,7 +114,7 @@ def _run(ctx, quick):
     ctx.cov["actions"]["simulated_action_histogram"] = dict(sorted(hist.items(), key=lambda kv: -kv[1]))   # SimNext: one successor per action kind
     ctx._c12_mc = threading.Thread(target=design, args=(ctx, quick), daemon=True)
     ctx._c12_mc.start()
-    probes = [(n, s, "raw") for n, s in F4_PROBES.items()] + [(n, s, "raw") for n, s in STORE_PROBES.items()]
+    probes = [(n, s, "raw") for n, s in list(F4_PROBES.items()) + list(STORE_PROBES.items()) + list(REFRESH_PROBES.items())]
     behs = [{"store": m, "steps": s} for _, s, m in probes]
     behs += [{"store": "raw", "steps": b["steps"]} for b in seq + sims]
     behs += [{"store": "contract", "steps": b["steps"]} for b in conc + mixed]
@@ -165,6 +174,16 @@ def _run(ctx, quick):
         ctx.notes.append("interleaving families run under the documented KVStore.Delete contract (harness decorator vC12Contract)")
     for inv in store_bad - {"OneTimeOnce"} - set(DISABLED_INVS):
         report(ctx, inv, "auth", STORE_PROBE, STORE_PROBES[STORE_PROBE], prow)
+    refresh_bad = by_probe.get(REFRESH_PROBE, set())
+    if "SessSound" in refresh_bad:
+        report_violation(ctx, "SessSound@auth:" + REFRESH_PROBE,
+                         "a DELETED regular session authenticates again: AuthenticateCookie's TTL refresh (taken when more than 10% of the TTL has elapsed) "
+                         "writes the session document back with a blind datastore.Set after reading it; a DeleteSession (logout) between that Get and "
+                         "the Set is undone, and the next presentations succeed; history: " + show(REFRESH_PROBES[REFRESH_PROBE]),
+                         {"behaviour": REFRESH_PROBES[REFRESH_PROBE], "invariant": "SessSound", "level": "auth",
+                          "real_trace": [{k: r.get(k) for k in ("a", "pr", "res", "S", "PC")} for r in rows_named(prow, REFRESH_PROBES[REFRESH_PROBE])]})
+    for inv in refresh_bad - {"SessSound"} - set(DISABLED_INVS):
+        report(ctx, inv, "auth", REFRESH_PROBE, REFRESH_PROBES[REFRESH_PROBE], prow)
 
     # 5. all behaviours: property on real outcomes, then conformance ----------------------------------------------------
     box = {}
@@ -205,16 +224,16 @@ def _run(ctx, quick):
 
     ctx.cov["rule"] = ("behaviours = every sequential history of length 4 over all actions (1 user, 1 session, set {p1,empty}, try {p1,wrong}); every credential "
                        "history of length 5 (create/set-password/disable/enable/delete/re-create x password auth, passwords {p1,p2}); every session-life history "
-                       "of length 5 (6 in thorough: create/set-password/delete/re-create user x create/delete session x cookie/one-time presentation); every "
-                       "interleaving of the storage steps of 2 and of 3 concurrent presenters (cookie or websocket-token) of one session; seeded TLC simulations "
+                       "of length 5 (6 in thorough: create/set-password/delete/re-create user x create/delete/AGE session x cookie/one-time presentation); every "
+                       "interleaving of the storage steps (Get session, [refresh Set], Get user, [Delete]) of 2 (fresh or aged session) and of 3 concurrent presenters (cookie or websocket-token) of one session; seeded TLC simulations "
                        "of length 7 over 2 users, 2 sessions, set {p1,p2,empty}, try {p1,p2,empty,wrong}; non-trivial = behaviour in which at least one "
                        "authentication succeeded and at least one was refused on the real code")
     ctx.assumptions += [
         "passwords enter only through bcrypt and string equality: p1/p2/wrong are bound to seeded strings (prefix-related, NUL, multi-byte); "
         "strings equal in their first 72 bytes and bcrypt's cyclic-key aliases are the same credential for bcrypt and are not 'wrong'",
         "SessionUUID values enter only through equality: numbered by first appearance",
-        "expiry = the store deleting the session document (TTL is handed to the store)",
-        "administrative operations are not interleaved with a presentation in flight",
+        "expiry = the store deleting the session document (TTL is handed to the store); ageing = the stored Expiration says >10% of the TTL has elapsed (forged through the datastore)",
+        "administrative operations are not interleaved with a presentation in flight, except DeleteSession racing the TTL refresh (fixed probe)",
         "concurrent presentations are decided under the documented KVStore.Delete contract (absent document => error), which Couchbase Server honours",
     ]
 
@@ -242,7 +261,7 @@ def rest_disabled(ctx, env):
 
 
 def rest_replay(ctx, steps_list, env):
-    ok_actions = {"CreateUser", "SetPassword", "Disable", "Enable", "DeleteUser", "CreateSession", "DeleteSession", "Expire"} | set(AUTH_OPS)
+    ok_actions = {"CreateUser", "SetPassword", "Disable", "Enable", "DeleteUser", "CreateSession", "DeleteSession", "Expire", "Age"} | set(AUTH_OPS)
     sel = [s for s in steps_list if all(x["a"] in ok_actions for x in s)]
     rrows = rest_run(ctx, sel, "c12-rest")
     rtr = os.path.join(ctx.scratch, "c12-rest.ndjson")
@@ -370,9 +389,10 @@ def measure(ctx, rows):
     """non-vacuity, measured on what the real code answered"""
     act = ctx.cov["actions"]
     cnt = {"auth_ok": 0, "auth_refused": 0, "password_cache_hits": 0, "stale_or_dead_session_refused": 0, "disabled_password_refused": 0,
-           "one_time_second_use_refused": 0, "concurrent_episodes": 0, "concurrent_episodes_one_winner": 0, "recreated_user_old_session_refused": 0}
+           "one_time_second_use_refused": 0, "aged_regular_session_refreshed": 0, "aged_one_time_cookie_presented": 0, "concurrent_episodes": 0, "concurrent_episodes_one_winner": 0, "recreated_user_old_session_refused": 0}
     nontrivial = 0
     cur = None
+    prev = None
 
     def close(c):
         nonlocal nontrivial
@@ -388,8 +408,15 @@ def measure(ctx, rows):
         if r["a"] == "Reset":
             close(cur)
             cur = {"ok": 0, "no": 0, "pres": 0, "wins": 0, "used": set(), "deleted": set(), "recreated": set()}
+            prev = None
             continue
         res = r["res"]
+        if res["op"] == "AuthCookie" and prev is not None and prev["S"][res["s"]]["aged"]:
+            if prev["S"][res["s"]]["oneTime"]:
+                cnt["aged_one_time_cookie_presented"] += 1
+            elif r["S"][res["s"]]["exists"] and not r["S"][res["s"]]["aged"]:
+                cnt["aged_regular_session_refreshed"] += 1
+        prev = r
         if r["a"] == "DeleteUser":
             cur["deleted"].add(r["u"])
         if r["a"] == "CreateUser" and r["u"] in cur["deleted"]:
